@@ -420,6 +420,17 @@ def is_paid(prog, t, denom_path):
 
 def coin_parts(t, _depth=0, prog=None):
     """(amount term, denom term) of a coin-valued term in any of the repo's spellings."""
+    a, d = _coin_parts(t, _depth, prog)
+    import engine.mir as _m
+    pr = prog or _m.CURRENT
+    if pr is not None:
+        # `liquid_coin(&config, amount).denom`: the component of a local constructor's result
+        a = _head_resolved(pr, a) if a is not None else a
+        d = _head_resolved(pr, d) if d is not None else d
+    return a, d
+
+
+def _coin_parts(t, _depth=0, prog=None):
     if t[0] == "agg" and t[2] == "Some" and len(t[3]) == 1:
         t = t[3][0][2]
     if t[0] == "call" and t[1] == "cosmwasm_std::Coin::new" and len(t[2]) == 2:
@@ -437,7 +448,7 @@ def coin_parts(t, _depth=0, prog=None):
         if pr is not None:
             r = resolve_head(pr, t)
             if r != t:
-                return coin_parts(r, _depth + 1, pr)
+                return _coin_parts(r, _depth + 1, pr)
     return None, None
 
 
